@@ -1,8 +1,8 @@
 SPECIFICATION MCSpec
 CONSTANTS P = 11
- NMin = 5
+ NMin = 6
  NMax = 6
- TMax = 3
+ TMax = 2
  KeyMode = "id"
  VerifyMode = "pairing"
 INVARIANTS TypeOK Algebra
